@@ -10,9 +10,10 @@ RULE = ("P1: for the rational quadratic kernel with alpha in {1,2}, variance in 
         "the matrix forms for Vector, &Vector, Matrix, &Matrix (shape = |X| x |Y|, every entry, <= variance), Gram "
         "symmetry bit for bit and diagonal = variance; per parameter set incl. the corners 1/64 and 64 of the parameter"
         " box: monotonicity / positivity / symmetry / zero-distance on a distance grid at base points 0, -3.5, 999, "
-        "-1000, matrix form = scalar form on nearby points of magnitude 1e3, parameter validation. Mixture parameter "
-        "1/2 on Pythagorean distances and 3/2 on d/l in {0, 3, 12} (exact square roots), non-integer mixture parameters"
-        " 3/2, 5/2, 7/10, 19/8 in the relational grid. Leading sub-rectangles of every table (a single point against a "
+        "-1000, matrix form = scalar form on nearby points of magnitude 1e3 and on point sets of 53 x 47, 64 x 64 and 1"
+        " x 2500 entries, parameter validation. Mixture parameter 1/2 on Pythagorean distances and 3/2 on d/l in {0, 3,"
+        " 12} (exact square roots), non-integer mixture parameters 3/2, 5/2, 7/10, 19/8, 1/64, 1/100 (with length "
+        "scales down to 1/64) in the relational grid. Leading sub-rectangles of every table (a single point against a "
         "set on either side, point against point, |X| x 2, (k+1) x k). Every Gram case is followed by a call on the "
         "reversed first point set (reversed rows). Case class = (kernel, form, alpha/point-count or magnitude / length-"
         "scale class).")
